@@ -465,8 +465,11 @@ func init() {
 		Quick: []Job{
 			{H: "H_C10_WaitWithReleased", K: 36, U: 3, Prune: true, TimeoutSec: 900},
 		},
-		Bounds:  "value already resolved; WaitWithReleased concurrent with one invalidation (SetContext); K=36",
-		Outside: "more than one invalidation",
+		Thorough: []Job{
+			{H: "H_C10_AccessInvalidate", K: 64, U: 3, Prune: true, Preempt: 1, TimeoutSec: 9000, QueryMs: 6000000, Weight: 2},
+		},
+		Bounds:  "value already resolved; WaitWithReleased concurrent with one invalidation (SetContext); K=36. Thorough: Access whose first callback invocation invalidates its own value and waits until the invalidation is delivered (must be re-invoked with the replacement; must not return the stale invocation's result), schedules with at most 1 preemption, K=64 (encoding alone takes ~13 min)",
+		Outside: "more than one invalidation; an independent invalidator thread racing Access (unrolling does not finish)",
 	}
 
 	boundary := []int{0, 1, 2, 30, 31, 32, 33, 62, 63, 64, 65}
